@@ -609,6 +609,195 @@ fn pathvm_stage(report: &mut Report, exe: &std::path::Path, threads: usize) {
     }
 }
 
+// ------------------------------------------------------------------------------ directed on/off cases
+
+/// Directed on/off cases the lattice of `bcgen` does not reach (contexts are given in the wire
+/// syntax): values PRINTED through a bare variable / dotted path (the fused `WritePath`) — 128-bit
+/// and 64-bit extremes, floats with very long texts, NaN, bytes holding invalid UTF-8, safe and
+/// normal strings — in autoescaped and plain templates, at top level, in captures and in loops;
+/// and a loop variable / key RE-BOUND by `{% set %}` inside its own loop body followed by dotted
+/// paths on it in `if` / filter / `for` / operator positions (the fused `LoadPath`).  Every case is
+/// compared between the two engines through `render` (a `String`), `render_to` (raw bytes, hex) and
+/// `render_to` into a writer that takes one byte per call.
+fn directed_stage(report: &mut Report) {
+    let print_bodies: [(&str, &str); 10] = [
+        ("bare", "{{ v }}"),
+        ("dot", "{{ m.k }}"),
+        ("dot2", "[{{ m.q.j }}|{{ v }}]"),
+        ("setblock", "{% set w %}{{ v }}{{ m.k }}{% endset %}<{{ w }}>"),
+        ("filter", "{% filter upper %}{{ m.k }}-{{ v }}{% endfilter %}"),
+        ("loop", "{% for x in l %}{{ x }},{% endfor %}{% for x in l2 %}{{ x.k }};{% endfor %}"),
+        ("if", "{% if true %}{{ v }}{% else %}{{ m.k }}{% endif %}{{ m.k }}"),
+        ("comp", "{% component cc(p) %}({{ p }}{{ body }}){% endcomponent cc %}{% <cc p={v}> %}{{ m.k }}{% </cc> %}"),
+        ("safe", "{{ v | safe }}{{ m.k }}"),
+        ("twice", "{{ v }}{{ v }}{{ m.k }}{{ m.k }}"),
+    ];
+    let values: [&str; 26] = [
+        "i128:-170141183460469231731687303715884105728", // i128::MIN (40 characters)
+        "i128:-170141183460469231731687303715884105727",
+        "i128:-100000000000000000000000000000000000000", // -10^38
+        "i128:-99999999999999999999999999999999999999",  // 39 characters
+        "i128:170141183460469231731687303715884105727",
+        "u128:340282366920938463463374607431768211455",
+        "i64:-9223372036854775808",
+        "u64:18446744073709551615",
+        "i64:-1",
+        "f:ffefffffffffffff", // f64::MIN: a text of more than 300 characters
+        "f:7fefffffffffffff",
+        "f:0000000000000001",
+        "f:7ff8000000000000",
+        "f:fff0000000000000",
+        "f:8000000000000000",
+        "y:ff",       // invalid UTF-8
+        "y:61ff62c3", // invalid in the middle and truncated at the end
+        "y:80",
+        "y:e697a5",   // valid multi-byte
+        "y:",
+        "s:3c623e26e9",
+        "S:3c623e26",
+        "B1",
+        "N",
+        "A2 i128:-170141183460469231731687303715884105728 y:ff",
+        "M1 s:6b y:ff",
+    ];
+    let rebind_bodies: [(&str, &str); 8] = [
+        ("rb_if", "{% for x in xs %}{% set x = {\"f\": \"n\", \"ts\": [1, 2]} %}{% if x.f %}Y{% else %}N{% endif %}{{ x.f | upper }}{% for t in x.ts %}{{ t }}{% endfor %}{{ x.f ~ \"!\" }};{% endfor %}"),
+        ("rb_before_after", "{% for x in xs %}[{{ x.f | default(value=\"-\") | upper }}{% set x = {\"f\": \"new\"} %}{{ x.f | upper }}{% if x.f == \"new\" %}=={% endif %}]{% endfor %}"),
+        ("rb_key", "{% for k, x in mm %}{% set k = {\"f\": 1} %}{{ k.f + 1 }}{% set x = {\"f\": [7]} %}{% for t in x.f %}{{ t }}{% endfor %};{% endfor %}"),
+        ("rb_nested", "{% for x in xs %}{% for y in [1] %}{% set x = {\"f\": \"in\"} %}{{ x.f | upper }}{% endfor %}{{ x.f | default(value=\"d\") | upper }};{% endfor %}"),
+        ("rb_inner_only", "{% for x in xs %}{% for y in [1, 2] %}{% set y = {\"f\": y} %}{{ y.f * 2 }}{% if y.f > 1 %}>{% endif %}{% endfor %};{% endfor %}"),
+        ("rb_global", "{% for x in xs %}{% set_global x = {\"f\": \"g\"} %}{{ x.f | default(value=\"d\") | upper }};{% endfor %}{{ x.f | upper }}"),
+        ("rb_cond", "{% for x in xs %}{% if loop.first %}{% set x = {\"f\": \"one\"} %}{% endif %}{{ x.f | default(value=\"d\") | upper }}{% if x.f %}t{% endif %};{% endfor %}"),
+        ("rb_compr", "{% for x in xs %}{% set x = {\"f\": [1, 2]} %}{{ [t * 2 for t in x.f] }}{{ x.f | length }};{% endfor %}"),
+    ];
+    let rebind_ctx = vec![
+        ("xs".to_string(), "A3 M2 s:66 s:6f s:7473 A1 i64:9 i64:3 M1 s:66 s:".to_string()),
+        ("mm".to_string(), "M2 s:61 M1 s:66 s:6f s:62 i64:2".to_string()),
+    ];
+    let mut templates: Vec<(String, String)> = Vec::new();
+    for (n, b) in print_bodies.iter().chain(rebind_bodies.iter()) {
+        // (component names are instance-wide: one per template)
+        templates.push((format!("{n}.html"), b.replace("cc", "ch")));
+        templates.push((n.to_string(), b.to_string()));
+    }
+    let (on, off) = match (build(&templates, false), build(&templates, true)) {
+        (Ok(a), Ok(b)) => (a, b),
+        (a, b) => {
+            report.violation(
+                "model-mismatch",
+                format!("the directed on/off templates cannot be registered: on {:?} / off {:?}", a.err(), b.err()),
+                serde_json::json!({"detail": {"stage": "directed-on-off"}, "templates": tj(&templates)}),
+            );
+            return;
+        }
+    };
+    // (hex of the bytes render_to wrote | "err"), (render), (one byte per write)
+    let outcome = |t: &Tera, name: &str, ctx: &Context| -> (String, String, String) {
+        let mut w = Capped::new(1 << 20);
+        let a = match catch(std::panic::AssertUnwindSafe(|| t.render_to(name, ctx, &mut w))) {
+            Ok(Ok(())) => format!("ok {}", hex(&w.buf)),
+            Ok(Err(_)) => "err".to_string(),
+            Err(p) => format!("panic {p}"),
+        };
+        let b = match catch(std::panic::AssertUnwindSafe(|| t.render(name, ctx))) {
+            Ok(Ok(s)) => format!("ok {s}"),
+            Ok(Err(_)) => "err".to_string(),
+            Err(p) => format!("panic {p}"),
+        };
+        let c = render_short(t, name, &Mode::Render, ctx, 1);
+        (a, b, c)
+    };
+    let mut cases: Vec<(String, Vec<(String, String)>)> = Vec::new();
+    for (n, _) in print_bodies.iter() {
+        for v in values.iter() {
+            let ctx = vec![
+                ("v".to_string(), v.to_string()),
+                ("m".to_string(), format!("M2 s:6b {v} s:71 M1 s:6a {v}")),
+                ("l".to_string(), format!("A2 {v} {v}")),
+                ("l2".to_string(), format!("A1 M1 s:6b {v}")),
+            ];
+            cases.push((n.to_string(), ctx.clone()));
+            cases.push((format!("{n}.html"), ctx));
+        }
+    }
+    for (n, _) in rebind_bodies.iter() {
+        cases.push((n.to_string(), rebind_ctx.clone()));
+        cases.push((format!("{n}.html"), rebind_ctx.clone()));
+        cases.push((n.to_string(), vec![]));
+    }
+    let mut reported: HashSet<String> = HashSet::new();
+    for (name, ctxw) in &cases {
+        let mut ctx = Context::new();
+        for (k, w) in ctxw {
+            if let Some(v) = decode(w) {
+                ctx.insert_value(k.clone(), v);
+            }
+        }
+        let a = outcome(&on, name, &ctx);
+        let b = outcome(&off, name, &ctx);
+        report.evaluations += 3;
+        report.oracle_checks += 3;
+        report.count(&format!("directed.{}", if a.1.starts_with("ok") { "ok" } else if a.1.starts_with("err") { "err" } else { "panic" }));
+        for (which, x, y) in [("render_to (bytes, hex)", &a.0, &b.0), ("render", &a.1, &b.1), ("render_to into a writer taking 1 byte per call", &a.2, &b.2)] {
+            if x != y {
+                report.oracle_failures += 1;
+                let key = format!("{}/{which}", name.trim_end_matches(".html"));
+                if reported.len() < 4 && reported.insert(key) {
+                    let src = templates.iter().find(|(n, _)| n == name).map(|t| t.1.clone()).unwrap_or_default();
+                    // only the bindings the template mentions
+                    let used: Vec<&(String, String)> = ctxw.iter().filter(|(k, _)| src.contains(&format!("{k}")) ).collect();
+                    report.violation(
+                        "property",
+                        format!(
+                            "optimisation pass changes the result (directed case, through {which}): `{src}` ({}) under {:?} gives `{}` with the pass and `{}` without",
+                            if name.ends_with(".html") { "autoescaped" } else { "not autoescaped" },
+                            used,
+                            x.chars().take(160).collect::<String>(),
+                            y.chars().take(160).collect::<String>()
+                        ),
+                        serde_json::json!({"directed": {"template": [name, src], "context": ctxw, "through": which},
+                            "pass_on": x.chars().take(600).collect::<String>(), "pass_off": y.chars().take(600).collect::<String>(),
+                            "rerun": "harness/target/release/c09 --replay <this file>"}),
+                    );
+                }
+            }
+        }
+    }
+    report.count_n("directed.cases", cases.len() as u64);
+}
+
+/// replay of a directed case
+fn replay_directed(d: &serde_json::Value) {
+    let name = d["template"][0].as_str().unwrap_or("t").to_string();
+    let src = d["template"][1].as_str().unwrap_or("").to_string();
+    let templates = vec![(name.clone(), src.clone())];
+    println!("template {name}: {src}");
+    let mut ctx = Context::new();
+    for p in d["context"].as_array().cloned().unwrap_or_default() {
+        if let (Some(k), Some(w)) = (p[0].as_str(), p[1].as_str()) {
+            println!("  {k} = {w}");
+            if let Some(v) = decode(w) {
+                ctx.insert_value(k.to_string(), v);
+            }
+        }
+    }
+    for (label, skip) in [("pass on ", false), ("pass off", true)] {
+        match build(&templates, skip) {
+            Ok(t) => {
+                for (cn, l) in hooks::stored_chunks_wire(&t, &name).unwrap_or_default() {
+                    println!("  {label} {cn}: {}", l.join(" "));
+                }
+                let mut w = Capped::new(1 << 20);
+                let r = catch(std::panic::AssertUnwindSafe(|| t.render_to(&name, &ctx, &mut w)));
+                println!("{label}: render_to -> {:?}, bytes {}", r.map(|x| x.map_err(|e| e.to_string())), hex(&w.buf));
+                println!("{label}: render    -> {:?}", catch(std::panic::AssertUnwindSafe(|| t.render(&name, &ctx).map_err(|e| e.to_string()))));
+                println!("{label}: 1 byte per write -> {}", render_short(&t, &name, &Mode::Render, &ctx, 1));
+            }
+            Err(e) => println!("{label}: registration failed: {e}"),
+        }
+    }
+}
+
 // ------------------------------------------------------------------------------ differential
 
 struct Diff {
@@ -910,6 +1099,10 @@ fn run_replay(path: &str) {
     let text = std::fs::read_to_string(path).expect("replay file");
     let j: serde_json::Value = serde_json::from_str(&text).expect("replay json");
     let j = if j.get("replay").is_some() { j["replay"].clone() } else { j };
+    if let Some(d) = j.get("directed") {
+        replay_directed(d);
+        return;
+    }
     if let Some(w) = j.get("window") {
         let window: Vec<String> = w.as_array().unwrap().iter().map(|x| x.as_str().unwrap().to_string()).collect();
         println!("window: {}\nreal optimize: {}", window.join(" "), real_optimize(&window));
@@ -1305,6 +1498,9 @@ fn main() {
 
     // ---- the path instructions of the real VM against the model the semantic theorems are about
     pathvm_stage(&mut report, &exe, threads);
+
+    // ---- directed on/off cases (extreme / invalid values printed through paths, re-bound loop variables)
+    directed_stage(&mut report);
 
     // ---- on/off differential
     let n_ctx = env.budget(7, 14);
